@@ -660,10 +660,37 @@ class C10Executor(Executor):
 
     # -- NamedTuple classes of the module
     def _namedtuple_fields(self, name):
+        """[(field, default expr | None)] of a named-tuple class of the module -- `class X(NamedTuple)` or the functional forms
+        X = namedtuple("X", "a b c" | [...]) / X = NamedTuple("X", [("a", T), ...]) with literal field names -- else None"""
         cls = self.module.classes.get(name)
-        if cls is None or not any(ast.unparse(b).split(".")[-1] == "NamedTuple" for b in cls.bases):
+        if cls is not None:
+            if not any(ast.unparse(b).split(".")[-1] == "NamedTuple" for b in cls.bases):
+                return None
+            return [(b.target.id, b.value) for b in cls.body if isinstance(b, ast.AnnAssign) and isinstance(b.target, ast.Name)]
+        v = self.module.assigns.get(name)
+        if not (isinstance(v, ast.Call) and ast.unparse(v.func).split(".")[-1] in ("namedtuple", "NamedTuple") and len(v.args) == 2 and not v.keywords):
             return None
-        return [(b.target.id, b.value) for b in cls.body if isinstance(b, ast.AnnAssign) and isinstance(b.target, ast.Name)]
+        spec = v.args[1]
+        if isinstance(spec, ast.Constant) and isinstance(spec.value, str):
+            names = spec.value.replace(",", " ").split()
+        elif isinstance(spec, (ast.List, ast.Tuple)):
+            names = []
+            for e in spec.elts:
+                e = e.elts[0] if isinstance(e, ast.Tuple) and e.elts else e
+                if not (isinstance(e, ast.Constant) and isinstance(e.value, str)):
+                    return None
+                names.append(e.value)
+        else:
+            return None
+        if not names or len(set(names)) != len(names) or not all(x.isidentifier() and not x.startswith("_") for x in names):
+            return None
+        return [(x, None) for x in names]
+
+    def global_name(self, name, node=None):
+        if (self.module.rel, name) not in self.reg.module_consts and name not in self.module.functions and name not in self.module.classes \
+                and name in self.module.assigns and self._namedtuple_fields(name) is not None:
+            return VType(name)
+        return super().global_name(name, node)
 
     def construct(self, st, t, args, kwargs, node):
         fields = self._namedtuple_fields(t.name) if isinstance(t, VType) else None
@@ -2133,12 +2160,25 @@ def install_members(reg):
     reg.method_models[("PyFile", "read")] = pyfile_read
 
 
+def item_fields(ex):
+    """field names of the work items of this module: those of its one 3-field named-tuple class, None = plain tuples"""
+    cands = [f for f in (ex._namedtuple_fields(c) for c in list(ex.module.classes) + list(ex.module.assigns)) if f is not None and len(f) == 3] \
+        if hasattr(ex, "_namedtuple_fields") else []
+    return [f for f, _d in cands[0]] if len(cands) == 1 else None
+
+
+def same_form(ex, v):
+    """the value a selection loop appended has the form every consumer of the work list is verified against (work_item):
+    a plain tuple, or an instance of the module's named-tuple class -- a plain tuple has no named fields, and vice versa"""
+    f = item_fields(ex)
+    return (isinstance(v, VNamed) and list(v.fields) == f) if f else not isinstance(v, VNamed)
+
+
 def work_item(ex, items, fields=None):
     """a work item as the code builds it: a plain 3-tuple, or an instance of the module's 3-field NamedTuple when the selection
     loop appended such instances (recorded from the append event) / when the module defines exactly one"""
     if fields is None:
-        cands = [f for f in (ex._namedtuple_fields(c) for c in ex.module.classes) if f is not None and len(f) == 3] if hasattr(ex, "_namedtuple_fields") else []
-        fields = [f for f, _d in cands[0]] if len(cands) == 1 else None
+        fields = item_fields(ex)
     return VNamed(items, fields) if fields else VTuple(items)
 
 
@@ -2270,7 +2310,7 @@ def member_contracts(reg_models=None):
                 ok = z3.Not(zkeep(zf, i - 1))
             elif len(new) == 1 and isinstance(new[0], VTuple) and len(new[0].items) == 3:
                 h, fn, bn = new[0].items
-                if isinstance(h, VExt) and h.sort == "ZipInfo" and isinstance(fn, VStr) and isinstance(bn, VStr):
+                if isinstance(h, VExt) and h.sort == "ZipInfo" and isinstance(fn, VStr) and isinstance(bn, VStr) and same_form(lc.ex, new[0]):
                     ok = z3.And(zkeep(zf, i - 1), h.t == e, fn.t == ZNAME(e), bn.t == BASENAME(ZNAME(e)))
             conj.append(ok)
         if lc.extra.get("phase") == "exit":
@@ -2439,7 +2479,7 @@ def member_contracts(reg_models=None):
                 ok = z3.Not(keep7e(e))
             elif len(new) == 1 and isinstance(new[0], VTuple) and len(new[0].items) == 3:
                 h, fn, bn = new[0].items
-                if isinstance(h, VExt) and h.sort == "FileInfo" and isinstance(fn, VStr) and isinstance(bn, VStr):
+                if isinstance(h, VExt) and h.sort == "FileInfo" and isinstance(fn, VStr) and isinstance(bn, VStr) and same_form(lc.ex, new[0]):
                     ok = z3.And(keep7e(e), h.t == e, fn.t == FNAME(e), bn.t == BASENAME(FNAME(e)))
             conj.append(ok)
         if lc.extra.get("phase") == "exit":
